@@ -295,6 +295,10 @@ impl Check for C16 {
             "harness is built with overflow-checks and debug-assertions, so wrapping arithmetic in the target panics and is reported".into(),
         ]
     }
+    fn hang_cpu_budget(&self, _tier: Tier) -> Option<std::time::Duration> {
+        // a case of this check is a few milliseconds of computation; one that has burnt two minutes of CPU time is not coming back
+        Some(std::time::Duration::from_secs(120))
+    }
     fn cases(&self, tier: Tier) -> u64 {
         tier.pick(20_000, 150_000)
     }
